@@ -232,7 +232,7 @@ func getu4(s []byte) rune {
 
 // Returns *either* an int or a float -- json is ambigous.
 // An int is preferred if possible.
-func (d *Decoder) decodeNumber(majorByte byte) (tok.TokenType, int64, float64, error) {
+func (d *Decoder) decodeNumber(majorByte byte) (tok.TokenType, int64, uint64, float64, error) {
 	// First byte has already been eaten.
 	// Easiest to unread1, so we can use track, then swallow it again.
 	d.r.Unreadn1()
@@ -257,16 +257,16 @@ func (d *Decoder) decodeNumber(majorByte byte) (tok.TokenType, int64, float64, e
 			// The stream ended: the number must be complete, i.e. the scanner
 			// must be in a state that a terminating byte would be accepted in.
 			if _, err := step(' '); err != nil {
-				return 0, 0, 0, io.ErrUnexpectedEOF
+				return 0, 0, 0, 0, io.ErrUnexpectedEOF
 			}
 			break
 		}
 		if err != nil {
-			return 0, 0, 0, err
+			return 0, 0, 0, 0, err
 		}
 		step, err = step(b)
 		if err != nil {
-			return 0, 0, 0, err
+			return 0, 0, 0, 0, err
 		}
 		if step == nil {
 			// Unread one.  The scan loop consumed one char beyond the end
@@ -282,12 +282,16 @@ func (d *Decoder) decodeNumber(majorByte byte) (tok.TokenType, int64, float64, e
 	// then try float; if that fails return the float error.
 	s := string(d.r.StopTrack())
 	if i, err := strconv.ParseInt(s, 10, 64); err == nil {
-		return tok.TInt, i, 0, nil
+		return tok.TInt, i, 0, 0, nil
 	} else if err.(*strconv.NumError).Err == strconv.ErrRange {
-		return tok.TInt, i, 0, err
+		// Beyond int64: it may still be a uint64 (which the encoder does emit).
+		if u, uerr := strconv.ParseUint(s, 10, 64); uerr == nil {
+			return tok.TUint, 0, u, 0, nil
+		}
+		return tok.TInt, i, 0, 0, err
 	}
 	f, err := strconv.ParseFloat(s, 64)
-	return tok.TFloat64, 0, f, err
+	return tok.TFloat64, 0, 0, f, err
 }
 
 // Scan steps are looped over the stream to find how long the number is.
